@@ -323,4 +323,101 @@ theorem slashings_pure_congr (cfg : Config) (fork : Fork) (epoch total : Nat) (s
           simp only [hs, hs', ↓reduceIte] at h3
           simp [hs, hs', h2, h3]
 
+/-! ### the exit-queue budget -/
+
+/-- validators that can still be given an exit epoch -/
+def farCount (vals : List Validator) : Nat := qcount vals FAR_FUTURE_EPOCH
+
+theorem exits_congr (w w' : List Validator) (h : w.map (·.exit_epoch) = w'.map (·.exit_epoch)) :
+    exits w = exits w' ∧ ∀ E, qcount w E = qcount w' E := by
+  constructor
+  · have : ∀ l : List Validator, exits l = ((l.map (·.exit_epoch)).filter (fun e => decide (e ≠ FAR_FUTURE_EPOCH))) := by
+      intro l; unfold exits; rw [List.filter_map]; rfl
+    rw [this w, this w', h]
+  · intro E
+    have : ∀ l : List Validator, qcount l E = ((l.map (·.exit_epoch)).filter (fun e => decide (e = E))).length := by
+      intro l; unfold qcount; rw [List.filter_map, List.length_map]; rfl
+    rw [this w, this w', h]
+
+theorem qmax_congr (cfg : Config) (cur : Nat) (w w' : List Validator) (h : w.map (·.exit_epoch) = w'.map (·.exit_epoch)) :
+    qmax cfg cur w = qmax cfg cur w' := by
+  unfold qmax; rw [(exits_congr w w' h).1]
+
+/-- giving an exit epoch to a validator that had none uses up one unit of the budget -/
+theorem farCount_set (cfg : Config) (vals : List Validator) (i : Nat) (v : Validator) (E : Nat)
+    (hv : vals[i]? = some v) (hfar : v.exit_epoch = FAR_FUTURE_EPOCH) (hE : E ≠ FAR_FUTURE_EPOCH) :
+    farCount (vals.set i (exited cfg v E)) + 1 = farCount vals := by
+  obtain ⟨h1, h2⟩ := split_at vals i v hv
+  rw [h2]
+  generalize vals.take i = a at *
+  generalize vals.drop (i + 1) = b at *
+  subst h1
+  unfold farCount
+  simp only [qcount_append, qcount_cons, exited, hfar, hE, ↓reduceIte]
+  omega
+
+/-- the exit-queue budget `qmax + farCount` does not grow in the first loop of `process_registry_updates`,
+as long as it is below `FAR_FUTURE_EPOCH` -/
+theorem budget_first_loop (cfg : Config) (cur C : Nat) (vals : List Validator)
+    (hb : qmax cfg cur vals + farCount vals ≤ C) (hC : C < FAR_FUTURE_EPOCH) :
+    qmax cfg cur (registry_eligibility_and_ejections_pure cfg cur vals) +
+      farCount (registry_eligibility_and_ejections_pure cfg cur vals) ≤ C := by
+  unfold registry_eligibility_and_ejections_pure
+  refine foldl_preserves (fun (w : List Validator) => qmax cfg cur w + farCount w ≤ C) _ _ _ hb ?_
+  intro w j hw
+  cases hj : w[j]? with
+  | none => simpa using hw
+  | some u =>
+    simp only []
+    have h1 : qmax cfg cur (if is_eligible_for_activation_queue cfg u = true then
+          w.set j { u with activation_eligibility_epoch := cur + 1 } else w) +
+        farCount (if is_eligible_for_activation_queue cfg u = true then
+          w.set j { u with activation_eligibility_epoch := cur + 1 } else w) ≤ C := by
+      split
+      · have hm : (w.set j { u with activation_eligibility_epoch := cur + 1 }).map (·.exit_epoch) = w.map (·.exit_epoch) :=
+          map_set_same (·.exit_epoch) w j u { u with activation_eligibility_epoch := cur + 1 } hj rfl
+        rw [qmax_congr cfg cur _ _ hm]
+        unfold farCount
+        rw [(exits_congr _ _ hm).2]
+        exact hw
+      · exact hw
+    split
+    · rename_i hact
+      simp only [Bool.and_eq_true, decide_eq_true_eq] at hact
+      rw [ive_unfold]
+      generalize hW : (if is_eligible_for_activation_queue cfg u = true then
+        w.set j { u with activation_eligibility_epoch := cur + 1 } else w) = W at h1 ⊢
+      cases hWj : W[j]? with
+      | none => exact h1
+      | some u' =>
+        simp only []
+        split
+        · exact h1
+        · rename_i hfar
+          have hfar' : u'.exit_epoch = FAR_FUTURE_EPOCH := by simpa using hfar
+          -- `W[j]` is active like `u`
+          have hu' : is_active_validator u' cur = true := by
+            have : u'.activation_epoch = u.activation_epoch ∧ u'.exit_epoch = u.exit_epoch := by
+              rw [← hW] at hWj
+              split at hWj
+              · obtain ⟨hi, _⟩ := List.getElem?_eq_some_iff.mp hj
+                simp only [List.getElem?_set, ↓reduceIte, hi, Option.some.injEq] at hWj
+                subst hWj; exact ⟨rfl, rfl⟩
+              · rw [hj] at hWj; injection hWj with e; subst e; exact ⟨rfl, rfl⟩
+            unfold is_active_validator at hact ⊢
+            rw [this.1, this.2]; exact hact.1
+          -- there is budget left: the validator being ejected still counts in `farCount`
+          have hpos : 1 ≤ farCount W := by
+            unfold farCount qcount
+            apply List.length_pos_of_mem (a := u')
+            exact List.mem_filter.mpr ⟨List.mem_of_getElem? hWj, by simp [hfar']⟩
+          have hnext : next cfg cur W ≤ qmax cfg cur W + 1 := by unfold next; split <;> omega
+          have hE : next cfg cur W ≠ FAR_FUTURE_EPOCH := by omega
+          obtain ⟨hge, hcur⟩ := next_ge cfg cur W
+          obtain ⟨hq, _, _⟩ := set_exit_summaries cfg cur W j u' (next cfg cur W) hWj hfar' hE hu' hcur
+          have hf := farCount_set cfg W j u' (next cfg cur W) hWj hfar' hE
+          rw [hq]
+          omega
+    · exact h1
+
 end Zrnt.Proofs.Lemmas
